@@ -9,21 +9,27 @@ from py2coq_c06 import C06Kernel
 WF = 'optiland/wavefront.py'
 _K = dict(kclass=C06Kernel)
 
+_OBJ = {'self.optic.image_surface.material_pre': 'obj', 'self.optic.object_surface.material_post': 'obj'}
+_TILT_T = dict({'self.optic.field_type': 'str', 'field': 'tuple2'}, **_OBJ)
+_OPQ = {'self.optic.paraxial.EPD': 'num', 'self.optic.object_surface.material_post.n': 'num',
+        'self.optic.image_surface.material_pre.n': 'num'}
+_VIG = ['self.optic.fields.get_vig_factor']
+
 MODULES = {
     'WavefrontC06': [
         dict(name='c06_opd_image_to_xp', file=WF, cls='Wavefront', func='_opd_image_to_xp', **_K),
         dict(name='c06_ref_sphere', file=WF, cls='Wavefront', func='_get_reference_sphere', **_K),
-        dict(name='c06_path_length', file=WF, cls='Wavefront', func='_get_path_length',
+        dict(name='c06_path_length', file=WF, cls='Wavefront', func='_get_path_length', types=dict(_OBJ),
+             static={'wavelength': 'notnone'}, opaque_calls=dict(_OPQ),
              calls={'self._opd_image_to_xp': 'c06_opd_image_to_xp'}, **_K),
-        dict(name='c06_correct_tilt_xy', file=WF, cls='Wavefront', func='_correct_tilt',
-             types={'self.optic.field_type': 'str', 'field': 'tuple2'},
-             opaque_calls={'self.optic.paraxial.EPD': 'num'}, static={'x': 'notnone', 'y': 'notnone'}, **_K),
-        dict(name='c06_correct_tilt', file=WF, cls='Wavefront', func='_correct_tilt',
-             types={'self.optic.field_type': 'str', 'field': 'tuple2'},
-             opaque_calls={'self.optic.paraxial.EPD': 'num'}, static={'x': 'none', 'y': 'none'}, **_K),
-        dict(name='c06_field_data', file=WF, cls='Wavefront', func='_generate_field_data',
-             types={'self.optic.field_type': 'str', 'field': 'tuple2'},
-             ignore_calls=['self.optic.trace'],
+        dict(name='c06_correct_tilt_xy', file=WF, cls='Wavefront', func='_correct_tilt', types=dict(_TILT_T),
+             opaque_calls=dict(_OPQ), opaque_pairs=_VIG,
+             static={'x': 'notnone', 'y': 'notnone', 'wavelength': 'notnone'}, **_K),
+        dict(name='c06_correct_tilt', file=WF, cls='Wavefront', func='_correct_tilt', types=dict(_TILT_T),
+             opaque_calls=dict(_OPQ), opaque_pairs=_VIG,
+             static={'x': 'none', 'y': 'none', 'wavelength': 'notnone'}, **_K),
+        dict(name='c06_field_data', file=WF, cls='Wavefront', func='_generate_field_data', types=dict(_TILT_T),
+             ignore_calls=['self.optic.trace'], opaque_calls=dict(_OPQ), opaque_pairs=_VIG,
              calls={'self._get_path_length': 'c06_path_length', 'self._correct_tilt': 'c06_correct_tilt'}, **_K),
     ],
 }
